@@ -583,3 +583,51 @@ def _ok(ctx, rule, inst, ok, loc, construct, why, witness):
         ctx.ob(rule, inst, True, loc)
     else:
         ctx.fail(rule, inst, construct, loc, why, witness)
+
+
+def einsum_sublist_target(ctx, world):
+    """A3.einsum - list-format einsum: the adjoint contraction einsum(g, sublist_out, <others...>, S) produces an
+    array laid out by the sublist S it is given as ITS output, and unbroadcast_einsum(., meta, S') sums the broadcast
+    (Ellipsis) axes at the position the Ellipsis has in S'.  Both must be the same sublist (the differentiated
+    operand's own)."""
+    from ..kfun import is_call_to, same
+    from ..terms import walk
+    from ..tutil import expand, unseq
+
+    ctx.describe("A3.einsum", "in the VJP of list-format einsum the sublist handed to unbroadcast_einsum is the output sublist of the adjoint einsum whose result it reduces (the Ellipsis position that decides which axes are summed is the one of that array)")
+    n = 0
+    for e in world.table.entries:
+        if e.mode != "vjp" or e.spec != "maker" or e.prim_id != "numpy.einsum":
+            continue
+        ir = world.ir(e)
+        if ir is None or not ir.ok:
+            continue
+        res = unseq(expand(world.ev, ir.result, {"autograd.numpy.numpy_vjps.unbroadcast_einsum"}))
+        for t in walk(res):
+            if not (is_call_to(t, "autograd.numpy.numpy_vjps.unbroadcast_einsum") and len(t.args) == 3):
+                continue
+            E, M, S = t.args
+            if not (E.op == "call" and len(E.args) == 2 and E.args[1].op == "star"):
+                continue
+            L = E.args[1].x
+            # last element of a concatenation  ... + [X]
+            last = None
+            cur = L
+            for _ in range(8):
+                while cur.op == "seq":
+                    cur = cur.value
+                if cur.op == "bin" and cur.opname == "Add":
+                    cur = cur.r
+                    continue
+                if cur.op in ("list", "tuple") and cur.elts and cur.elts[-1].op != "star":
+                    last = cur.elts[-1]
+                break
+            n += 1
+            inst = "vjp:numpy.einsum (list format)"
+            if last is None:
+                ctx.ob("A3.einsum", inst, None, e.loc)
+            elif last is S or same(last, S):
+                ctx.ob("A3.einsum", inst, True, e.loc)
+            else:
+                ctx.fail("A3.einsum", inst, "vjp:numpy.einsum|sublist-target", e.loc, f"the adjoint einsum writes its result in the layout of `{str(last)[:50]}` but unbroadcast_einsum is told the layout `{str(S)[:50]}`: the Ellipsis (broadcast) axes are summed at the wrong position", "np.einsum(A, [..., 0, 1], B, [..., 1, 2], [0, 2, ...]) with A of shape (2, 3) and B of shape (5, 3, 4): the gradient for A has shape (5, 2)")
+    ctx.floor("A3.einsum list-format adjoint", n, 1)
